@@ -57,6 +57,16 @@ EvenWords == IF LEVEL = 1 THEN {0, 2, 4} ELSE {0, 2, 4, 6, 8, 10}
 AbsorbRecipe(init, elems) == [init |-> init, blocks |-> [k \in 1 .. (Len(elems) \div 8) |-> SubSeq(elems, 8 * k - 7, 8 * k)]]
 InitPat(p) == IF p[1] = "rand" THEN <<"rand", p[2] + 1>> ELSE IF p[1] = "zero" THEN <<"count", 0>> ELSE <<"rand", 5>>
 
+\* two calls one after the other in the same context (the second must not see anything the first left in locals / memory)
+SeqProcs == <<[mod |-> "sha256", proc |-> "hash_2to1", n |-> 16], [mod |-> "sha256", proc |-> "hash_1to1", n |-> 8],
+              [mod |-> "blake3", proc |-> "hash_2to1", n |-> 16], [mod |-> "blake3", proc |-> "hash_1to1", n |-> 8],
+              [mod |-> "keccak256", proc |-> "hash", n |-> 16]>>
+SeqSeeds == IF LEVEL = 1 THEN {11} ELSE {11, 4093, 7}
+Digest(m, p, w) ==
+  CASE m = "sha256" -> Sha256(BytesBE(w))
+    [] m = "blake3" -> Blake3Words(w)
+    [] m = "keccak256" -> StackOfLanes(Keccak256(BytesOfLanes(LanesOfStack(w))))
+
 Cases ==
   {[mod |-> "sha256", proc |-> "hash_2to1", pat |-> p] : p \in Pats(16)}
   \cup {[mod |-> "sha256", proc |-> "hash_1to1", pat |-> p] : p \in Pats(8)}
@@ -66,6 +76,7 @@ Cases ==
   \cup {[mod |-> "keccak256", proc |-> "hash", pat |-> p] : p \in Pats(16)}
   \cup {[mod |-> "keccak256", proc |-> "to_bit_interleaved", pat |-> p] : p \in Pats(2)}
   \cup {[mod |-> "keccak256", proc |-> "from_bit_interleaved", pat |-> p] : p \in Pats(2)}
+  \cup {[mod |-> "seq", proc |-> "pair", pat |-> <<"rand", sd, i, j>>] : sd \in SeqSeeds, i \in 1 .. Len(SeqProcs), j \in 1 .. Len(SeqProcs)}
   \cup {[mod |-> "native", proc |-> "hash_memory", pat |-> <<p[1], p[2], n>>] : p \in FeltPats, n \in NativeWords}
   \cup {[mod |-> "native", proc |-> "hash_memory_even", pat |-> <<p[1], p[2], n>>] : p \in FeltPats, n \in EvenWords}
   \cup {[mod |-> "native", proc |-> "state_to_digest", pat |-> <<p[1], p[2], 3>>] : p \in FeltPats}
@@ -81,6 +92,11 @@ Expect(c) ==
          LET w == Words(c.pat, 2)  r == Interleave(LanesOfStack(w)[1]) IN [inw |-> w, out |-> <<r.even, r.odd>>]
     [] c.mod = "keccak256" /\ c.proc = "from_bit_interleaved" ->
          LET w == Words(c.pat, 2)  r == Interleave(LanesOfStack(w)[1]) IN [inw |-> <<r.even, r.odd>>, out |-> w]
+    [] c.mod = "seq" ->
+         LET a == SeqProcs[c.pat[3]]  b == SeqProcs[c.pat[4]]
+             wa == Words(<<"rand", c.pat[2]>>, a.n)  wb == Words(<<"rand", c.pat[2] + 1>>, b.n)
+         IN [inw |-> <<>>, calls |-> <<[mod |-> a.mod, proc |-> a.proc, inw |-> wa, out |-> Digest(a.mod, a.proc, wa)],
+                                       [mod |-> b.mod, proc |-> b.proc, inw |-> wb, out |-> Digest(b.mod, b.proc, wb)]>>]
     [] c.mod = "native" /\ c.proc = "hash_memory" -> LET e == Felts(c.pat, 4 * c.pat[3]) IN [inw |-> <<>>, elems |-> e, recipe |-> RpoRecipe(e)]
     \* state (12 elements, capacity first) given on the stack as [C, B, A] = the state in reverse order
     [] c.mod = "native" /\ c.proc = "hash_memory_even" ->
